@@ -48,6 +48,7 @@ THEOREMS = [
     "AiuVerif.C04.no_fuel_exhaustion",
     "AiuVerif.C04.error_is_budget",
     "AiuVerif.C04.lane_budget",
+    "AiuVerif.C04.collide_chain_raises",   # converse of the budget branch at stage level
     "AiuVerif.C04.moved_only_if_offending",
     "AiuVerif.Order.overlap_order",   # registration order / guards / shared context, re-decided on the generated sites
 ]
@@ -65,9 +66,9 @@ TRUSTED = ["hash((pid, tid)) lane keys assumed injective on the generated domain
 ASSUMPTIONS = ["tids are non-negative integers (tid -1 collides with the code's reserved key)",
                "every event has pid, tid and ts; only -O tid and -O drop are in the model"]
 NOT_YET_PROVED = [
-    "converse of the budget branch: that a slice colliding on its lane and on all 5 lanes of the range DOES raise KeyError "
-    "is shown on a witness (staircase of 7, decide) and by correspondence only; proved: at most 5 extra lanes per input lane "
-    "(lane_budget) and KeyError is the only possible failure on well-formed input (error_is_budget)",
+    "the converse of the budget branch is proved at stage level for any lane table (collide_chain_raises: colliding on "
+    "the own lane and on every lane of the range raises KeyError); that a given INPUT FAMILY drives the lane table into "
+    "such a state is shown on a witness (staircase of 7, decide) and by correspondence",
 ]
 
 TOL = 1e-4          # 0.1 ns in us: the rounding grain of round(ts+dur, 4)
